@@ -20,6 +20,13 @@ NA = {
 }
 
 CHECKS = {
+    "C08": {
+        "level": "exploration",
+        "technique": "deterministic simulation: real run recorded at the I/O seam vs --list-outputs/--list-inputs/--dry-run on empty and dirty simulated disks, under a whole-disk EROFS fault and permuted directory enumeration; seeded option-set and dirtying histories; ddmin-minimised replay files",
+        "text": "For each seeded (namespace set, option set): a real nnvg run in a pristine directory is recorded by the audit-hook seam (files opened for writing, templates opened for reading); each listing/dry-run invocation must produce zero mutating events and leave the recursive snapshot of the whole sandbox (paths, sizes, modes, mtime_ns, hashes) unchanged, must succeed with the whole disk read-only (EROFS at every mutating call), --list-outputs must equal the created set on empty and dirty directories, and --list-inputs must contain every *.j2 the real run read and the DSDL dependency closure computed independently with pydsdl. Seeded sampling of options and dirtying histories, not proof.",
+        "note": "Trusted: simkit, CPython audit events as the complete set of disk-touching calls, pydsdl for the dependency closure. 'Influences the output' is under-approximated by (templates read) + (DSDL closure). One known finding (upstream issue #58) is listed in KNOWN_FINDINGS.json.",
+        "design_ref": "DESIGN.md section 2, C08",
+    },
     "C12": {
         "level": "fault_enumeration",
         "technique": "deterministic simulation: seeded histories of nnvg invocations and directory edits on a simulated disk with fault injection (EACCES by a simulated unprivileged owner, I/O errors, torn writes, crash mid-run, failing external program); oracle = pristine-world reference run; ddmin-minimised replay files",
